@@ -410,13 +410,14 @@ End Layout.
 Section EditCells.
 Variable cw : Z -> Z.
 Variable upper : Z -> list Z.
+Variable lower : list Z -> list Z.
 
 (* cursor_cell: when the offset is shown in the view, the cursor coordinates of a focused
    render are the cell where it is shown *)
 Theorem edit_cursor_cell s w lay xy :
   find_row cw (disp s) (get_line_translation cw (look s) w lay) (pos s + zlen (caption s)) 0 = Some xy ->
   snd (get_cursor_coords cw s w lay) = xy /\
-  snd (step cw upper s (ERender true w lay)) = Ok (RCoords (fst xy) (snd xy) (zlen (get_line_translation cw (look s) w lay))).
+  snd (step cw upper lower s (ERender true w lay)) = Ok (RCoords (fst xy) (snd xy) (zlen (get_line_translation cw (look s) w lay))).
 Proof.
   intros H.
   assert (E: snd (get_cursor_coords cw s w lay) = xy).
@@ -472,7 +473,7 @@ Theorem edit_click_cell s w lay col row p x0 c :
   0 <= row ->
   cell_in_row cw (disp s) (nth (Z.to_nat row) view []) p x0 c ->
   (exists ch, nthz (disp s) p = Some ch /\ x0 + c <= col < x0 + c + cw ch) ->
-  step cw upper s (EClick 1 col row w lay) =
+  step cw upper lower s (EClick 1 col row w lay) =
   (with_pref (put s (text s) (clampz (p - zlen (caption s)) 0 (zlen (text s)))) (Some (PInt col, w)), [], Ok (RBool true)).
 Proof.
   intros view Hrow Hr0 Hc Hx.
